@@ -41,6 +41,7 @@ def modes : List Mode := []
   ++ Drv.C15.modes
   ++ [Drv.Lib1.mode, Drv.Lib1.oracle]
   ++ [Drv.Lib2.mode]
+  ++ Drv.C15Faults.modes
 
 def dispatch (line : String) : String :=
   match tokens line with
